@@ -14,8 +14,9 @@ use crate::read::{
     DebugRngLists, DebugStr, DebugStrOffsets, DebugTuIndex, DebugTypes, DebugTypesUnitHeadersIter,
     DebuggingInformationEntry, EntriesCursor, EntriesRaw, EntriesTree, Error,
     IncompleteLineProgram, IndexSectionId, LocListIter, LocationLists, MacroIter, Range,
-    RangeLists, RawLocListIter, RawRngListIter, Reader, ReaderOffset, ReaderOffsetId, Result,
-    RngListIter, Section, UnitHeader, UnitIndex, UnitIndexSectionIterator, UnitOffset, UnitType,
+    RangeLists, RawLocListIter, RawRngListIter, Reader, ReaderAddress, ReaderOffset,
+    ReaderOffsetId, Result, RngListIter, Section, UnitHeader, UnitIndex, UnitIndexSectionIterator,
+    UnitOffset, UnitType,
 };
 use crate::{DebugMacroOffset, constants};
 
@@ -636,6 +637,11 @@ impl<R: Reader> Dwarf<R> {
             }
             None => None,
         };
+        // Skip tombstone and empty ranges, as is done for entries of a range list.
+        let address_size = unit.encoding().address_size;
+        let range = range.filter(|range| {
+            range.begin < u64::min_tombstone(address_size) && range.begin < range.end
+        });
         Ok(RangeIter(RangeIterInner::Single(range)))
     }
 
